@@ -13,8 +13,19 @@ def gen(out):
     k = re.search(r"let default_key = GroupKey \{\s*prehash:\s*([^,]+),", body)
     if not k:
         raise Missing(f"{rel}: process_columnar_slice default_key prehash")
-    zero = k.group(1).strip() == "0"
-    out.append(f"Definition agg_columnar_default_prehash_zero : bool := {'true' if zero else 'false'}.")
+    lit = k.group(1).strip()
+    gk = re.sub(r"//[^\n]*", "", read("src/engine/core/read/sink/aggregate/group_key.rs"))
+    h = re.search(r"fn compute_prehash\(bucket_val: Option<u64>, groups: &\[GroupValue\]\) -> u64 \{(.*?)\n    \}\n", gk, re.S)
+    if not h:
+        raise Missing("src/engine/core/read/sink/aggregate/group_key.rs: fn compute_prehash")
+    row_zero = re.search(r"if\s+bucket_val\.is_none\(\)\s*&&\s*groups\.is_empty\(\)\s*\{\s*return 0;", h.group(1)) is not None
+    if lit == "0":
+        two_entries = not row_zero          # columnar key hashes as 0, row-path key as the real hash
+    elif "compute_prehash" in lit:
+        two_entries = False                 # both paths compute the same pre-hash
+    else:
+        raise Missing(f"{rel}: unrecognised default_key prehash {lit!r}")
+    out.append(f"Definition agg_columnar_default_prehash_zero : bool := {'true' if two_entries else 'false'}.")
     # COUNT UNIQUE over a typed i64 column: without a get_i64_at fallback every typed cell counts as ""
     opsrc = re.sub(r"//[^\n]*", "", read("src/engine/core/read/aggregate/ops.rs"))
     mu = re.search(r"impl CountUnique \{.*?pub fn update\(&mut self, row_idx: usize, columns: &HashMap<String, ColumnValues>\) \{(.*?)\n    \}\n", opsrc, re.S)
